@@ -284,3 +284,70 @@ Proof.
     + simpl. destruct (c =? 46); reflexivity.
   - rewrite split_on_intercalate by assumption. reflexivity.
 Qed.
+
+(* ---------- Flag keys: True iff some item IS the key ---------- *)
+Lemma zlist_eqb_sym a b : zlist_eqb a b = zlist_eqb b a.
+Proof.
+  destruct (zlist_eqb a b) eqn:E1; destruct (zlist_eqb b a) eqn:E2; try reflexivity.
+  - apply zlist_eqb_eq in E1. subst. rewrite zlist_eqb_refl in E2. discriminate.
+  - apply zlist_eqb_eq in E2. subst. rewrite zlist_eqb_refl in E1. discriminate.
+Qed.
+Lemma flag_item key a x d b :
+  m_flag_len_match (len x) (len key) && zlist_eqb (slice (len a) (len a + len key) (a ++ x ++ d :: b)) key = zlist_eqb key x.
+Proof.
+  unfold m_flag_len_match. destruct (Z.eqb_spec (len x) (len key)) as [E|N].
+  - rewrite <- E, slice_mid. apply zlist_eqb_sym.
+  - simpl. symmetry. apply not_true_is_false. intro H. apply zlist_eqb_eq in H. subst. congruence.
+Qed.
+Definition flag_test (flat key : list Z) (it : Z * Z) : bool :=
+  m_flag_len_match (snd it) (len key) && zlist_eqb (slice (fst it) (fst it + len key) flat) key.
+Lemma row_flag key c : forall pre post,
+  existsb (flag_test (pre ++ flatten c ++ post) key) (itab (len pre) c) = existsb (zlist_eqb key) (map fst c).
+Proof.
+  induction c as [|p c IH]; intros pre post; [reflexivity|].
+  cbn [itab existsb map]. f_equal.
+  - unfold flag_test. cbn [fst snd]. rewrite flatten_cons, <- !app_assoc. apply flag_item.
+  - specialize (IH (pre ++ fst p ++ [snd p]) post).
+    replace (len (pre ++ fst p ++ [snd p])) with (len pre + len (fst p) + 1) in IH by (rewrite !len_app, len_single; lia).
+    rewrite <- IH. rewrite flatten_cons, <- !app_assoc. reflexivity.
+Qed.
+Lemma rows_flag key crows : forall pre post,
+  map (existsb (flag_test (pre ++ flatten (concat crows) ++ post) key)) (itab_rows (len pre) crows)
+  = map (fun c => existsb (zlist_eqb key) (map fst c)) crows.
+Proof.
+  induction crows as [|c cs IH]; intros pre post; [reflexivity|].
+  cbn [itab_rows map]. f_equal.
+  - simpl concat. rewrite flatten_app, <- app_assoc. apply row_flag.
+  - specialize (IH (pre ++ flatten c) post). rewrite len_app in IH. rewrite <- IH.
+    simpl concat. rewrite flatten_app, <- !app_assoc. reflexivity.
+Qed.
+(* T6 for flags: a Flag key is reported for a record iff one of its ';'-separated items is exactly the key — not when
+   the key is only a prefix, a suffix or an infix of an item, nor when it occurs as "key=value" *)
+Theorem info_flag_correct : forall (key : list Z) (crows : list (list fcell)),
+  (forall c, In c crows -> crow_ok c) ->
+  let rows := map flatten crows in
+  has_flag (concat rows) key (item_table 0 rows) = map (fun c => existsb (zlist_eqb key) (map fst c)) crows.
+Proof.
+  intros key crows H rows. unfold rows, has_flag. rewrite item_table_cells by exact H. rewrite flatten_concat.
+  pose proof (rows_flag key crows [] []) as P. rewrite len_nil, app_nil_r in P.
+  change ([] ++ flatten (concat crows)) with (flatten (concat crows)) in P. exact P.
+Qed.
+Theorem info_flag_col_correct : forall (key : list Z) (lst : bool) (crows : list (list fcell)),
+  (forall c, In c crows -> crow_ok c) ->
+  let rows := map flatten crows in
+  info_col (concat rows) (item_table 0 rows) (key, IFlag, lst) = Col (map (fun c => CBool (existsb (zlist_eqb key) (map fst c))) crows).
+Proof.
+  intros key lst crows H rows. unfold info_col, rows. rewrite info_flag_correct by exact H. rewrite map_map. reflexivity.
+Qed.
+(* ... which is what the specification reads off the INFO text *)
+Theorem info_flag_spec : forall (key : list Z) (lst : bool) (items : list (list Z)) (d : Z),
+  items <> [] -> (forall it, In it items -> ~ In 59 it) -> key <> [46] ->
+  spec_info_cell (key, IFlag, lst) (intercalate [59] items) = Some (CBool (existsb (zlist_eqb key) (map fst (info_cells items d)))).
+Proof.
+  intros key lst items d Hne H Hk. unfold spec_info_cell. rewrite info_cells_fst by exact Hne.
+  unfold info_items. destruct (zlist_eqb (intercalate [59] items) [46]) eqn:E.
+  - apply zlist_eqb_eq in E.
+    assert (Ei : items = [[46]]) by (rewrite <- (split_on_intercalate 59 items Hne H), E; reflexivity).
+    rewrite Ei. simpl. destruct (zlist_eqb key [46]) eqn:E2; [apply zlist_eqb_eq in E2; congruence|reflexivity].
+  - rewrite split_on_intercalate by assumption. reflexivity.
+Qed.
